@@ -571,3 +571,68 @@ def normalize_calls(model):
                 n += 1
     model.normalized_keywords = n
     return n
+
+
+# ---------------------------------------------------------------------------------------------------
+def _desugar_body(stmts):
+    out = []
+    changed = False
+    for st in stmts:
+        for fld in ("body", "orelse", "finalbody"):
+            sub = getattr(st, fld, None)
+            if isinstance(sub, list) and sub and isinstance(sub[0], ast.stmt) and not isinstance(st, (ast.FunctionDef, ast.AsyncFunctionDef, ast.ClassDef)):
+                new, ch = _desugar_body(sub)
+                if ch:
+                    setattr(st, fld, new)
+                    changed = True
+        for h in getattr(st, "handlers", []) or []:
+            new, ch = _desugar_body(h.body)
+            if ch:
+                h.body = new
+                changed = True
+        if isinstance(st, ast.Return) and isinstance(st.value, ast.IfExp):
+            e = st.value
+            a = ast.copy_location(ast.Return(value=e.body), e.body)
+            b = ast.copy_location(ast.Return(value=e.orelse), e.orelse)
+            body, _ = _desugar_body([a])
+            orelse, _ = _desugar_body([b])
+            out.append(ast.copy_location(ast.If(test=e.test, body=body, orelse=orelse), st))
+            changed = True
+        elif isinstance(st, ast.Assign) and isinstance(st.value, ast.IfExp) and len(st.targets) == 1 and isinstance(st.targets[0], ast.Name):
+            e = st.value
+            a = ast.copy_location(ast.Assign(targets=[copy.deepcopy(st.targets[0])], value=e.body, lineno=st.lineno), st)
+            b = ast.copy_location(ast.Assign(targets=[copy.deepcopy(st.targets[0])], value=e.orelse, lineno=st.lineno), st)
+            body, _ = _desugar_body([a])
+            orelse, _ = _desugar_body([b])
+            out.append(ast.copy_location(ast.If(test=e.test, body=body, orelse=orelse), st))
+            changed = True
+        else:
+            out.append(st)
+    return out, changed
+
+
+def relink(node):
+    keep = getattr(node, "_parent", None)
+    for parent in ast.walk(node):
+        for child in ast.iter_child_nodes(parent):
+            child._parent = parent
+    node._parent = keep
+
+
+def desugar(model):
+    """`return a if c else b` and `x = a if c else b` become if/else statements, so that every rule sees
+    the branch structure (conditions as dominating facts, one return per alternative)."""
+    n = 0
+    for q, fn in list(model.funcs.items()):
+        if fn.path.endswith("posc.py"):
+            continue
+        if not any(isinstance(x, ast.IfExp) for x in ast.walk(fn.node)):
+            continue
+        new, ch = _desugar_body(fn.node.body)
+        if ch:
+            fn.node.body = new
+            ast.fix_missing_locations(fn.node)
+            relink(fn.node)
+            n += 1
+    model.desugared = n
+    return n
